@@ -115,7 +115,12 @@ def _pipeline(tier):
     cfgs = cfgs[:T['ncfg']]
     jobs = []
     for c in cfgs:
-        jobs.append((len(jobs) + 1, 'sameseed', c, C.seed() * 31 + c['cid'], rng.choice([7, 8, 9, 97, 98, 99, 998, 9998])))
+        off = rng.choice([7, 8, 9, 97, 98, 99, 998, 9998])
+        merges = [sorted(d['ups']) for d in c['devs'] if len(d['ups']) >= 2 and d['kind'] not in ('ginput', 'goutput')]
+        if merges and merges[0][0] <= 9 and len(jobs) % 4 < 2:
+            # the asset ids of the first two upstream devices of a merge straddle 9 | 10 (default names sort differently)
+            off = 9 - merges[0][0]
+        jobs.append((len(jobs) + 1, 'sameseed', c, C.seed() * 31 + c['cid'], off))
         H = c['horizon']
         cuts = sorted(set(rng.sample(range(1, H), rng.choice([1, 2]))))
         jobs.append((len(jobs) + 1, 'split', c, C.seed() * 31 + c['cid'], cuts))
